@@ -67,7 +67,8 @@ Proof.
 Qed.
 Definition token_R_refl (t : token) : token_R t t.
 Proof.
-  destruct t; constructor; auto using str_R_refl, keyword_R_refl, operator_R_refl, litkind_R_refl.
+  destruct t; constructor;
+    first [apply str_R_refl | apply keyword_R_refl | apply operator_R_refl | apply litkind_R_refl].
 Defined.
 
 Lemma attr_R_eq a b : attr_R a b -> a = b.
@@ -193,12 +194,163 @@ Proof.
 Qed.
 
 (* any two operation records are related by the total relation *)
-Lemma ops_R_total {A1 G1 D1 C1 Cm1 A2 G2 D2 C2 Cm2}
-      (O1 : ops A1 G1 D1 C1 Cm1) (O2 : ops A2 G2 D2 C2 Cm2) :
-  ops_R A1 A2 total G1 G2 total D1 D2 total C1 C2 total Cm1 Cm2 total O1 O2.
+Lemma ops_R_total {A1 G1 D1 C1 A2 G2 D2 C2}
+      (O1 : ops A1 G1 D1 C1) (O2 : ops A2 G2 D2 C2) :
+  ops_R A1 A2 total G1 G2 total D1 D2 total C1 C2 total O1 O2.
 Proof.
   destruct O1, O2. constructor; unfold total; intros; try exact I.
-  - constructor; exact I.
-  - destruct (d_line_end0 _ _ _ _ _) as [[c g] d], (d_line_end1 _ _ _ _ _) as [[c' g'] d'].
+  - match goal with |- prod_R _ _ _ _ _ _ ?x ?y => destruct x, y end. constructor; exact I.
+  - match goal with |- prod_R _ _ _ _ _ _ ?x ?y => destruct x as [[? ?] ?], y as [[? ?] ?] end.
     repeat constructor.
+Qed.
+
+(* ------------------------------------------------------------ C13: layout freedom *)
+
+Section Layout.
+Context {A1 G1 D1 C1 E1 A2 G2 D2 C2 E2 : Type}.
+Variables (O1 : ops A1 G1 D1 C1) (O2 : ops A2 G2 D2 C2).
+
+Lemma parsers_total d :
+  parsers_R A1 A2 total G1 G2 total D1 D2 total C1 C2 total E1 E2 total
+            (parsers_at A1 G1 D1 C1 E1 O1 d) (parsers_at A2 G2 D2 C2 E2 O2 d).
+Proof. apply parsers_at_R; [apply ops_R_total|apply nat_R_refl]. Qed.
+
+Theorem layout_free_file d s1 s2 :
+  same_tokens s1 s2 ->
+  outcome_of (parse_file A1 G1 D1 C1 E1 O1 (parsers_at A1 G1 D1 C1 E1 O1 d) s1) =
+  outcome_of (parse_file A2 G2 D2 C2 E2 O2 (parsers_at A2 G2 D2 C2 E2 O2 d) s2).
+Proof.
+  intro H. eapply res_R_outcome.
+  apply parse_file_R; [apply ops_R_total|apply parsers_total|apply same_tokens_R; exact H].
+Qed.
+
+Theorem layout_free_expression d s1 s2 :
+  same_tokens s1 s2 ->
+  outcome_of (entry_expression A1 G1 D1 C1 E1 O1 (parsers_at A1 G1 D1 C1 E1 O1 d) s1) =
+  outcome_of (entry_expression A2 G2 D2 C2 E2 O2 (parsers_at A2 G2 D2 C2 E2 O2 d) s2).
+Proof.
+  intro H. eapply res_R_outcome.
+  apply entry_expression_R; [apply ops_R_total|apply parsers_total|apply same_tokens_R; exact H].
+Qed.
+
+Theorem layout_free_stmt d s1 s2 :
+  same_tokens s1 s2 ->
+  outcome_of (entry_stmt A1 G1 D1 C1 E1 O1 (parsers_at A1 G1 D1 C1 E1 O1 d) s1) =
+  outcome_of (entry_stmt A2 G2 D2 C2 E2 O2 (parsers_at A2 G2 D2 C2 E2 O2 d) s2).
+Proof.
+  intro H. eapply res_R_outcome.
+  apply entry_stmt_R; [apply ops_R_total|apply parsers_total|apply same_tokens_R; exact H].
+Qed.
+
+(* the state after a run is again related: repeated entry-point calls stay in step *)
+Theorem layout_free_stmt_state d s1 s2 :
+  pstate_R A1 A2 total G1 G2 total D1 D2 total E1 E2 total s1 s2 ->
+  res_R A1 A2 total G1 G2 total D1 D2 total E1 E2 total _ _ (node_R A1 A2 total C1 C2 total)
+        (entry_stmt A1 G1 D1 C1 E1 O1 (parsers_at A1 G1 D1 C1 E1 O1 d) s1)
+        (entry_stmt A2 G2 D2 C2 E2 O2 (parsers_at A2 G2 D2 C2 E2 O2 d) s2).
+Proof.
+  intro H. apply entry_stmt_R; [apply ops_R_total|apply parsers_total|exact H].
+Qed.
+
+End Layout.
+
+(* ------------------------------------------------------------ C15 / C05: relations on positions *)
+
+(* [posrel P Q a b]: the two runs see positions related by Q, and the first one's satisfy P *)
+Section PosRel.
+Context {G1 D1 C1 E1 G2 D2 C2 E2 : Type}.
+Variable AR : N -> N -> Type.
+Variables (O1 : ops N G1 D1 C1) (O2 : ops N G2 D2 C2).
+Hypothesis plus2_R : forall a b, AR a b -> AR (a_plus2 _ _ _ _ O1 a) (a_plus2 _ _ _ _ O2 b).
+
+Lemma ops_R_pos : ops_R N N AR G1 G2 total D1 D2 total C1 C2 total O1 O2.
+Proof.
+  destruct O1, O2. constructor; unfold total; intros; try exact I.
+  - match goal with |- prod_R _ _ _ _ _ _ ?x ?y => destruct x, y end. constructor; exact I.
+  - match goal with |- prod_R _ _ _ _ _ _ ?x ?y => destruct x as [[? ?] ?], y as [[? ?] ?] end.
+    repeat constructor.
+  - apply plus2_R. assumption.
+Qed.
+
+Theorem pos_free_file d s1 s2 :
+  pstate_R N N AR G1 G2 total D1 D2 total E1 E2 total s1 s2 ->
+  res_R N N AR G1 G2 total D1 D2 total E1 E2 total _ _ (node_R N N AR C1 C2 total)
+        (parse_file N G1 D1 C1 E1 O1 (parsers_at N G1 D1 C1 E1 O1 d) s1)
+        (parse_file N G2 D2 C2 E2 O2 (parsers_at N G2 D2 C2 E2 O2 d) s2).
+Proof.
+  intro H. apply parse_file_R; [apply ops_R_pos| |exact H].
+  apply parsers_at_R; [apply ops_R_pos|apply nat_R_refl].
+Qed.
+
+Theorem pos_free_expression d s1 s2 :
+  pstate_R N N AR G1 G2 total D1 D2 total E1 E2 total s1 s2 ->
+  res_R N N AR G1 G2 total D1 D2 total E1 E2 total _ _ (node_R N N AR C1 C2 total)
+        (entry_expression N G1 D1 C1 E1 O1 (parsers_at N G1 D1 C1 E1 O1 d) s1)
+        (entry_expression N G2 D2 C2 E2 O2 (parsers_at N G2 D2 C2 E2 O2 d) s2).
+Proof.
+  intro H. apply entry_expression_R; [apply ops_R_pos| |exact H].
+  apply parsers_at_R; [apply ops_R_pos|apply nat_R_refl].
+Qed.
+
+Theorem pos_free_stmt d s1 s2 :
+  pstate_R N N AR G1 G2 total D1 D2 total E1 E2 total s1 s2 ->
+  res_R N N AR G1 G2 total D1 D2 total E1 E2 total _ _ (node_R N N AR C1 C2 total)
+        (entry_stmt N G1 D1 C1 E1 O1 (parsers_at N G1 D1 C1 E1 O1 d) s1)
+        (entry_stmt N G2 D2 C2 E2 O2 (parsers_at N G2 D2 C2 E2 O2 d) s2).
+Proof.
+  intro H. apply entry_stmt_R; [apply ops_R_pos| |exact H].
+  apply parsers_at_R; [apply ops_R_pos|apply nat_R_refl].
+Qed.
+
+End PosRel.
+
+(* all positions of a tree, in traversal order *)
+Fixpoint positions {C} (n : node N C) : list N :=
+  match n with
+  | Nd _ ps _ _ ks => ps ++ flat_map positions ks
+  end.
+
+Lemma list_R_app {X Y} (R : X -> Y -> Type) a1 a2 b1 b2 :
+  list_R X Y R a1 a2 -> list_R X Y R b1 b2 -> list_R X Y R (a1 ++ b1) (a2 ++ b2).
+Proof. induction 1; simpl; [auto|]. intro. constructor; auto. Qed.
+
+Fixpoint node_R_positions {C1 C2} (AR : N -> N -> Type) (CR : C1 -> C2 -> Type)
+      (n1 : node N C1) (n2 : node N C2) (H : node_R N N AR C1 C2 CR n1 n2) {struct H} :
+  list_R N N AR (positions n1) (positions n2).
+Proof.
+  destruct H as [t1 t2 tR ps1 ps2 psR ats1 ats2 atsR d1 d2 dR k1 k2 kR].
+  cbn [positions]. apply list_R_app; [exact psR|].
+  revert k1 k2 kR.
+  refine (fix go k1 k2 (r : list_R _ _ (node_R N N AR C1 C2 CR) k1 k2) {struct r} :
+            list_R N N AR (flat_map positions k1) (flat_map positions k2) :=
+            match r with
+            | list_R_nil_R _ _ _ => list_R_nil_R _ _ _
+            | list_R_cons_R _ _ _ x1 x2 xr l1 l2 lr => _
+            end).
+  cbn [flat_map]. apply list_R_app.
+  - exact (node_R_positions C1 C2 AR CR x1 x2 xr).
+  - exact (go l1 l2 lr).
+Qed.
+
+(* positions of a parser state: everything a production can put into a tree *)
+Definition elem_positions {G} (e : selem N G) : list N := match e with SE a0 a1 _ _ => [a0; a1] end.
+Definition state_positions {G D E} (s : pstate N G D E) : list N :=
+  s_spos _ _ _ _ s ::
+  match s_cur _ _ _ _ s with Some (p, _) => [p] | None => [] end ++
+  flat_map elem_positions (s_rest _ _ _ _ s) ++ flat_map elem_positions (s_mark _ _ _ _ s) ++
+  match s_term _ _ _ _ s with TEof a _ => [a] | TErr _ _ => [] end.
+
+Lemma list_R_diag {X} (P : X -> Prop) (l : list X) :
+  (forall x, In x l -> P x) -> list_R X X (fun a b => ((a = b) * P a)%type) l l.
+Proof.
+  induction l as [|x l IH]; intro H; constructor.
+  - split; [reflexivity|apply H; left; reflexivity].
+  - apply IH. intros y Hy. apply H. right. exact Hy.
+Qed.
+
+Lemma list_R_diag_inv {X} (P : X -> Prop) (l1 l2 : list X) :
+  list_R X X (fun a b => ((a = b) * P a)%type) l1 l2 -> l1 = l2 /\ Forall P l1.
+Proof.
+  induction 1 as [|x y [Hxy Hp] l1 l2 _ [IH1 IH2]]; [split; [reflexivity|constructor]|].
+  subst. split; [reflexivity|constructor; assumption].
 Qed.
